@@ -302,6 +302,35 @@ def rule_epoch_floor(ctx):
                           f"1970 with a fraction (1969-12-31 23:59:59.5) is encoded one second too late")
 
 
+def rule_total_and_nulls(ctx):
+    """C17.f the response's row total comes from the executed cursor; C17.g the timestamp struct keeps NULLs."""
+    prog = ctx.prog
+    m = prog.mod("server")
+    fn = prog.fn("server", "query_request")
+    for d in ast.walk(fn):
+        if isinstance(d, ast.Dict):
+            for k, v in zip(d.keys, d.values):
+                if isinstance(k, ast.Constant) and k.value == "total":
+                    ok = not isinstance(v, ast.Constant)
+                    ctx.ob("C17.f", "the response's `total` is taken from the executed cursor", ok, m.loc(d), norm(v))
+                    if not ok:
+                        ctx.violation("C17.f", "server", "query_request", "constant total in the query response", m.loc(d),
+                                      f"the query response reports `total: {norm(v)}` whatever the statement returned: through the server "
+                                      f"cursor.rowcount is always {norm(v)} (3-row SELECT, DML counts), unlike the in-process fake")
+    a = prog.mod("arrow")
+    if prog.has_fn("arrow", "timestamp_to_sf_struct"):
+        f2 = prog.fn("arrow", "timestamp_to_sf_struct")
+        calls = [c for c in ast.walk(f2) if isinstance(c, ast.Call) and norm(c.func).endswith("StructArray.from_arrays")]
+        ctx.floor("struct constructions in timestamp_to_sf_struct", len(calls), 1)
+        for c in calls:
+            ok = any(k.arg == "mask" for k in c.keywords)
+            ctx.ob("C17.g", "the timestamp struct is built with the validity mask of the input", ok, a.loc(c))
+            if not ok:
+                ctx.violation("C17.g", "arrow", "timestamp_to_sf_struct", "struct built without validity mask", a.loc(c),
+                              "StructArray.from_arrays is called without `mask=`: the struct has no NULLs, so a NULL timestamp comes back "
+                              "through the server as 1970-01-01 00:00:00 instead of None")
+
+
 def rule_fraction(ctx):
     prog = ctx.prog
     m = prog.mod("arrow")
@@ -331,6 +360,7 @@ RULES = [
     ("C17.b", rule_login, ("quick", "thorough")),
     ("C17.b2", rule_login_instances, ("quick", "thorough")),
     ("C17.e", rule_epoch_floor, ("quick", "thorough")),
+    ("C17.f", rule_total_and_nulls, ("quick", "thorough")),
     ("C17.c", rule_error_fields, ("quick", "thorough")),
     ("C17.d", rule_fraction, ("quick", "thorough")),
 ]
